@@ -28,6 +28,7 @@ type c14Case struct {
 
 type c14Reader struct {
 	Kind int `json:"kind,omitempty"` // which well-known error the injected error wraps (ops.FaultErr)
+	IO   int `json:"io,omitempty"`   // 1: the reader also implements io.WriterTo
 	At   int `json:"at"`
 	Mode int `json:"mode"` // 0: (0,E) after At bytes, sticky; 1: (n,E) with the last chunk; 2: (0,E) once, then the reader works again
 	Chunk int `json:"chunk,omitempty"`
@@ -35,6 +36,7 @@ type c14Reader struct {
 
 type c14Writer struct {
 	Kind  int  `json:"kind,omitempty"`
+	IO    int  `json:"io,omitempty"` // 1: the writer also implements io.StringWriter
 	At    int  `json:"at"`
 	Short int  `json:"short,omitempty"`
 	Once  bool `json:"once,omitempty"`
@@ -87,6 +89,7 @@ func c14CheckOne(c c14Case) string {
 		cs.Faults.ReaderFailAt = c.Reader.At
 		cs.Faults.ReaderMode = c.Reader.Mode
 		cs.Faults.ErrKind = c.Reader.Kind
+		cs.Faults.IOKind = c.Reader.IO
 		cs.Sched.ReadChunk = c.Reader.Chunk
 		res := c14Exec(c, &cs)
 		if res.Infra != "" {
@@ -105,6 +108,7 @@ func c14CheckOne(c c14Case) string {
 		cs.Faults.WriterShort = c.Writer.Short
 		cs.Faults.WriterOnce = c.Writer.Once
 		cs.Faults.ErrKind = c.Writer.Kind
+		cs.Faults.IOKind = c.Writer.IO
 		res := c14Exec(c, &cs)
 		if res.Infra != "" {
 			return ""
@@ -126,6 +130,10 @@ func c14CheckOne(c c14Case) string {
 	}
 	return ""
 }
+
+// c14IOKind: the write indexes are those of the plain writer; a writer that also offers WriteString may be written to in
+// other portions, so its fault indexes run over a wider range (handled by the caller through extra indexes)
+func c14IOKind(j, v, w int) int { return (j + v + 1) % 2 }
 
 func errOrNil(r *ops.Result) string {
 	if r.Err.Nil {
@@ -159,7 +167,7 @@ func c14All(t failer, col *collector, c c14Case, stride int) {
 					continue
 				}
 				cc := c
-				cc.Reader = &c14Reader{At: k, Mode: mode, Chunk: []int{0, 1, 7}[(k+mode)%3], Kind: (k + 3*mode) % 6}
+				cc.Reader = &c14Reader{At: k, Mode: mode, Chunk: []int{0, 1, 7}[(k+mode)%3], Kind: (k + 3*mode) % 6, IO: (k / 2) % 2}
 				pos := "reader@inside"
 				if k == 0 {
 					pos = "reader@0"
@@ -188,7 +196,7 @@ func c14All(t failer, col *collector, c c14Case, stride int) {
 			}
 			for v := 0; v < 3; v++ {
 				cc := c
-				cc.Writer = &c14Writer{At: j, Kind: (j + v) % 6}
+				cc.Writer = &c14Writer{At: j, Kind: (j + v) % 6, IO: c14IOKind(j, v, w)}
 				switch v {
 				case 1:
 					cc.Writer.Short = 1
